@@ -263,3 +263,54 @@ func goTokens(src string) []string {
 	}
 	return out
 }
+
+// Wrappers nest a body one level deeper.
+var Wrappers = [][2]string{
+	{"if b {", "}"},
+	{"for i := 0; i < 1; i++ {", "}"},
+	{"switch s {\ncase \"a\":", "}"},
+	{"<div>", "</div>"},
+	{"@c() {", "}"},
+	{"<span>", "</span>"},
+	{"if !b {\nno\n} else {", "}"},
+}
+
+// EachDeep calls f with every layout (tokens separated by one blank) nested 0..maxDepth levels deep
+// inside each kind of wrapper and inside a rotation of all of them; shard i of n.
+func EachDeep(i, n, maxDepth int, f func(name, src string)) {
+	k := 0
+	for _, l := range Layouts {
+		if l.Top || l.Parts {
+			continue
+		}
+		inner := strings.TrimPrefix(l.Pre, "\t") + strings.Join(l.Toks, " ") + l.Post
+		for w := 0; w <= len(Wrappers); w++ {
+			for depth := 0; depth <= maxDepth; depth++ {
+				k++
+				if k%n != i {
+					continue
+				}
+				var open, closing []string
+				for d := 0; d < depth; d++ {
+					wr := Wrappers[(d+w)%len(Wrappers)]
+					if w < len(Wrappers) {
+						wr = Wrappers[w]
+					}
+					ind := strings.Repeat("\t", d+1)
+					open = append(open, ind+strings.ReplaceAll(wr[0], "\n", "\n"+ind))
+					closing = append([]string{ind + wr[1]}, closing...)
+				}
+				body := strings.Join(open, "\n")
+				if body != "" {
+					body += "\n"
+				}
+				body += strings.Repeat("\t", depth+1) + inner
+				if len(closing) > 0 {
+					body += "\n" + strings.Join(closing, "\n")
+				}
+				src := header + layoutHeader + "templ T(s string, b bool, xs []string, attrs templ.Attributes) {\n" + body + "\n}\n"
+				f(l.Name, src)
+			}
+		}
+	}
+}
